@@ -14,10 +14,16 @@ pub struct AnsiElementIterator<'a> {
     // This is never Element::Text.
     element: Option<Element>,
 
-    // Number of text bytes seen since the last element was emitted.
-    text_length: usize,
+    // Pending run of text bytes [text_start, text_end) not yet emitted.
+    text_start: usize,
+    text_end: usize,
 
-    // Byte offset of start of current element.
+    // A completed run of text bytes that must be emitted before anything else. It is set
+    // when bytes that are neither text nor part of a completed element (an ignored or
+    // aborted escape sequence) separate two runs of text.
+    deferred_text: Option<(usize, usize)>,
+
+    // Byte offset of the end of the last element emitted.
     start: usize,
 
     // Byte offset of most rightward byte processed so far
@@ -64,7 +70,9 @@ impl<'a> AnsiElementIterator<'a> {
             machine: anstyle_parse::Parser::<anstyle_parse::DefaultCharAccumulator>::new(),
             bytes: s.bytes(),
             element: None,
-            text_length: 0,
+            text_start: 0,
+            text_end: 0,
+            deferred_text: None,
             start: 0,
             pos: 0,
         }
@@ -74,8 +82,20 @@ impl<'a> AnsiElementIterator<'a> {
         let mut performer = Performer::default();
         self.machine.advance(&mut performer, byte);
         self.element = performer.element;
-        self.text_length += performer.text_length;
         self.pos += 1;
+        if performer.text_length > 0 {
+            // The text reported for this byte ends here (a multi-byte character is reported
+            // when its last byte arrives).
+            let text_start = self.pos - performer.text_length;
+            if self.text_end == self.text_start {
+                self.text_start = text_start;
+            } else if text_start != self.text_end {
+                // Bytes were swallowed between the pending text and this text.
+                self.deferred_text = Some((self.text_start, self.text_end));
+                self.text_start = text_start;
+            }
+            self.text_end = self.pos;
+        }
     }
 }
 
@@ -83,24 +103,34 @@ impl Iterator for AnsiElementIterator<'_> {
     type Item = Element;
 
     fn next(&mut self) -> Option<Element> {
+        if let Some((start, end)) = self.deferred_text.take() {
+            self.start = end;
+            return Some(Element::Text(start, end));
+        }
+
         // If the last element emitted was text, then there may be a non-text element waiting
         // to be emitted. In that case we do not consume a new byte.
-        while self.element.is_none() {
+        while self.element.is_none() && self.deferred_text.is_none() {
             match self.bytes.next() {
                 Some(b) => self.advance_vte(b),
                 None => break,
             }
         }
 
+        if let Some((start, end)) = self.deferred_text.take() {
+            self.start = end;
+            return Some(Element::Text(start, end));
+        }
+
         if let Some(mut element) = self.element.take() {
             // There is a non-text element waiting to be emitted, but it may have preceding
             // text, which must be emitted first.
-            if self.text_length > 0 {
-                let start = self.start;
-                self.start += self.text_length;
-                self.text_length = 0;
+            if self.text_end > self.text_start {
+                let (start, end) = (self.text_start, self.text_end);
+                self.text_start = self.text_end;
+                self.start = end;
                 self.element = Some(element);
-                return Some(Element::Text(start, self.start));
+                return Some(Element::Text(start, end));
             }
 
             let start = self.start;
@@ -110,9 +140,11 @@ impl Iterator for AnsiElementIterator<'_> {
             return Some(element);
         }
 
-        if self.text_length > 0 {
-            self.text_length = 0;
-            return Some(Element::Text(self.start, self.pos));
+        if self.text_end > self.text_start {
+            let (start, end) = (self.text_start, self.text_end);
+            self.text_start = self.text_end;
+            self.start = end;
+            return Some(Element::Text(start, end));
         }
 
         None
